@@ -35,7 +35,7 @@ ASSUMPTIONS = [
     "the count clause is decided on calculators that cache through ASE's Calculator base class (all harness styles, EMT, LennardJones); Hamiltonian workloads are excluded from the count clause as the statement says",
     "pass A never queries the energy itself; it reads calc.results / calc.check_state and lets the package's Logger do the querying",
 ]
-REQUIRED = {"force_queries": 300, "trials": 4000, "count_checks": 300, "cached_energy_checks": 2000, "reference_energy_checks": 3000, "intrusive_queries": 1000, "keyed_results_handed_out": 500, "peratom_trials": 300, "ase_calculator_trials": 300, "rejected": 800, "failed": 200}
+REQUIRED = {"simulations_with_energy_contributing_constraint": 10, "force_queries": 300, "trials": 4000, "count_checks": 300, "cached_energy_checks": 2000, "reference_energy_checks": 3000, "intrusive_queries": 1000, "keyed_results_handed_out": 500, "peratom_trials": 300, "ase_calculator_trials": 300, "rejected": 800, "failed": 200}
 SHARD_TIMEOUT = {"quick": 900, "thorough": 3000}
 FAMILIES = ["canonical", "isobaric", "isotension", "grand", "grand", "hamiltonian", "canonical", "isobaric"]
 CALCS = [("soft", "plain"), ("soft", "keyed"), ("soft", "peratom"), ("emt", "ase"), ("lj", "ase"), ("soft", "keyed"), ("soft", "peratom"), ("emt", "ase")]
@@ -99,6 +99,15 @@ def run_one(rec: Rec, spec, steps, family, kind, style, mode):
         mc, info = sims.build(spec, logfile=log, logging_interval=1)
         mc.atoms.calc = factory()
         calc = mc.atoms.calc
+        if family != "grand" and len(mc.atoms) >= 2 and spec["seed"] % 4 == 1:
+            # a constraint that contributes to the energy (a Hookean tether, an external force): the energy of the
+            # configuration is what Atoms.get_potential_energy() says, constraint terms included
+            from ase.constraints import ExternalForce, Hookean
+
+            extra = Hookean(0, 1, k=2.0, rt=0.5) if spec["seed"] % 8 == 1 else ExternalForce(0, 1, 0.3)
+            mc.atoms.set_constraint([*mc.atoms.constraints, extra])
+            wit0["energy_constraint"] = type(extra).__name__
+            rec.count("simulations_with_energy_contributing_constraint")
     except Exception as ex:  # noqa: BLE001
         rec.viol(f"C04/build-raised/{classify_exception(ex)}", f"building the simulation raised {ex}"[:300], wit0)
         return
@@ -108,6 +117,12 @@ def run_one(rec: Rec, spec, steps, family, kind, style, mode):
 
     def fresh(atoms):
         a = atoms.copy()
+        a.calc = factory()
+        return float(a.get_potential_energy())
+
+    def fresh_raw(atoms):
+        a = atoms.copy()
+        a.set_constraint()
         a.calc = factory()
         return float(a.get_potential_energy())
 
@@ -176,7 +191,8 @@ def run_one(rec: Rec, spec, steps, family, kind, style, mode):
                 changes = ["?"]
             if not changes and "energy" in calc.results:
                 rec.count("cached_energy_checks")
-                if not abs(float(calc.results["energy"]) - e_true) <= tol:
+                e_raw = fresh_raw(atoms)  # the calculator's own cache holds the calculator's energy, without constraint terms
+                if not abs(float(calc.results["energy"]) - e_raw) <= 1e-10 * max(1.0, abs(e_raw)):
                     viol(f"C04/cached-energy-wrong/{v}", f"the calculator holds energy {calc.results['energy']!r} as valid for the current atoms, from scratch it is {e_true!r}", wit)
             elif changes:
                 rec.count("cache_invalid_after_" + v)
@@ -199,7 +215,10 @@ def run_one(rec: Rec, spec, steps, family, kind, style, mode):
                 f_true = fresh_forces(atoms)
                 if f.shape != f_true.shape or not np.allclose(f, f_true, rtol=1e-9, atol=1e-12):
                     viol(f"C04/reported-forces-wrong/{v}", f"the forces reported for the current atoms differ from a from-scratch evaluation by up to {float(np.abs(f - f_true).max()) if f.shape == f_true.shape else 'shape'}", wit)
-        if "E" in mshape and t.verdict is False:
+        # (by the move objects behind the entry, not by the entry's shape: an entry may be a second name of another
+        #  entry's exchange move)
+        is_exchange_entry = "E" in mshape or (t.name in mc.moves and any(hasattr(m_, "to_delete_label") for m_ in sims.walk_moves(mc.moves[t.name].move)))
+        if is_exchange_entry and t.verdict is False:
             st["after_reverted_exchange"] = True
         mis = getattr(calc, "misattributed", None)
         if mis:
